@@ -602,6 +602,16 @@ impl<'a> Searcher<'a> {
             return Ok(());
         }
 
+        // Git never re-includes anything below an excluded directory, whatever exception
+        // patterns say; only a search root can be such a directory (others are not entered)
+        #[cfg(feature = "git")]
+        let dir_is_gitignored = apply_gitignore
+            && git_repository.is_some_and(|repository| {
+                repository
+                    .is_path_ignored(Path::new(&canonical_path))
+                    .unwrap_or(false)
+            });
+
         let canonical_depth = crate::util::calc_depth(&canonical_path);
 
         let base_depth = match root_depth {
@@ -636,9 +646,10 @@ impl<'a> Searcher<'a> {
                                 // Check the path against the filters
                                 #[cfg(feature = "git")]
                                 let pass_gitignore = !apply_gitignore
-                                    || !(git_repository.is_some() &&
+                                    || !(dir_is_gitignored
+                                    || (git_repository.is_some() &&
                                     git_repository.unwrap().is_path_ignored(&canonical_path)
-                                        .unwrap_or(false));
+                                        .unwrap_or(false)));
                                 #[cfg(not(feature = "git"))]
                                 let pass_gitignore = true;
 
